@@ -669,6 +669,12 @@ func (w *world) emitCache(root common.Hash) {
 		d := desc[h]
 		w.ever[h] = d.kind
 		if w.inModel[h] {
+			if d.isLeaf && kind[h] == kAcct {
+				// a leftover of a block that was never added is part of the new state:
+				// the hasher may have stored it again (leaf callback ran again) or not
+				w.r.out.Emit(fmt.Sprintf("insl? %s %s %d %d %s %s %s %s", hs(h), d.kind, d.size, d.tag, hlist(d.inner), hlist(d.need), hs(d.aRoot), hs(d.aCode)), "ok")
+				w.r.stats["leftover_leaf_candidates"]++
+			}
 			continue
 		}
 		w.inModel[h] = true
@@ -889,8 +895,7 @@ func (w *world) commitFrom(adb *account.AccountDB, touched map[common.Address]bo
 	}
 	q := ""
 	if w.tainted {
-		q = "?"
-		r.stats["loose_commit_ops"]++
+		r.stats["commits_with_leftovers"]++ // still compared exactly (see insl? candidates)
 	}
 	if cerr == nil {
 		r.out.Emit(fmt.Sprintf("commit%s %s %s", q, hs(root), traceString(writes)), "ok "+traceString(writes))
